@@ -121,7 +121,14 @@ class StmtMixin:
         if isinstance(s, ast.FunctionDef):
             if s.decorator_list:
                 raise Unsupported('decorated nested function {}'.format(s.name))
-            outer = self.fn_stack[-1] if self.fn_stack else '?'
+            if self.def_stack:
+                # the nested function sees its free variables as they are now: refuse when the enclosing function rebinds
+                # one of them after this point
+                free = {n.id for n in ast.walk(s) if isinstance(n, ast.Name) and isinstance(n.ctx, ast.Load)}
+                for n in ast.walk(self.def_stack[-1]):
+                    if isinstance(n, ast.Name) and isinstance(n.ctx, ast.Store) and n.id in free and n.lineno > s.lineno \
+                            and not any(n is m for m in ast.walk(s)):
+                        raise Unsupported('{} is rebound after the nested function {} that reads it was defined'.format(n.id, s.name))
             st.env[s.name] = FuncValue(s, st.env, None)
             return st
         if isinstance(s, (ast.Global, ast.Nonlocal)):
